@@ -31,7 +31,7 @@ import (
 // ---------------------------------------------------------------- sequential part
 
 type c31Op struct {
-	K string `json:"k"` // P prepare | C commit | D delete
+	K string `json:"k"` // P prepare | F prepare of a configuration NewNamespace refuses | C commit | D delete
 	N string `json:"n"`
 }
 
@@ -155,6 +155,8 @@ func c31Run(st *StatisticManager, c c31Case, count func(string, int64)) *c31Fail
 			switch op.K {
 			case "P":
 				err = m.ReloadNamespacePrepare(c31Config(op.N, i+1))
+			case "F":
+				err = m.ReloadNamespacePrepare(mgBrokenConfig(op.N, i+1, []mgUser{{User: c31User(op.N), Password: c31Password(i + 1)}}))
 			case "C":
 				err = m.ReloadNamespaceCommit(op.N)
 			case "D":
@@ -171,6 +173,12 @@ func c31Run(st *StatisticManager, c c31Case, count func(string, int64)) *c31Fail
 				return &c31Fail{i, "prepare-refused", err.Error()}
 			}
 			prepared[op.N] = i + 1
+		case "F":
+			// a failed prepare changes nothing, including what a later commit may activate
+			if err == nil {
+				count("broken-config-accepted", 1)
+				prepared[op.N] = i + 1
+			}
 		case "C":
 			if err != nil {
 				count("commit.refused", 1)
@@ -280,9 +288,9 @@ func (s *c31Seq) report(c c31Case) {
 // exhaust runs every history of exactly maxLen ops over the alphabet that starts with
 // prefix (shorter histories are prefixes of those). When a history fails at step k its
 // prefix of k+1 ops is reported once and every other history with that prefix is skipped.
-func (s *c31Seq) exhaust(names, active []string, maxLen int, prefix []c31Op) {
+func (s *c31Seq) exhaust(names, active []string, kinds []string, maxLen int, prefix []c31Op) {
 	var alphabet []c31Op
-	for _, k := range []string{"P", "C", "D"} {
+	for _, k := range kinds {
 		for _, n := range names {
 			alphabet = append(alphabet, c31Op{k, n})
 		}
@@ -325,7 +333,7 @@ func (s *c31Seq) exhaust(names, active []string, maxLen int, prefix []c31Op) {
 func c31Nontrivial(rec *kit.Rec, c c31Case) {
 	// interesting: an operation on one namespace between prepare and commit of another/the same
 	for i, op := range c.Ops {
-		if op.K != "P" {
+		if op.K != "P" && op.K != "F" {
 			continue
 		}
 		for j := i + 1; j < len(c.Ops); j++ {
@@ -577,15 +585,230 @@ func c31Concurrent(st *StatisticManager, r *kit.Rand, nAdmins, unitsPerAdmin, nR
 	return hist, stats
 }
 
+// ---------------------------------------------------------------- concurrent administrators
+
+// c31SplitState is the specification state of one namespace when prepare, commit and delete
+// are separate operations: active version (-1 none) and last prepared version (-1 none).
+type c31SplitState struct{ A, P int }
+
+var c31SplitUninit = c31SplitState{c31Uninit, c31Uninit}
+
+// c31SplitModel: every operation is atomic. prepare(n,v) ok => P=v; commit(n) refused =>
+// nothing; commit(n) accepted => needs P>=0 and A=P; delete(n) => A=-1; reads as before.
+func c31SplitModel() porcupine.Model {
+	m := c31Model()
+	m.Init = func() interface{} { return c31SplitUninit }
+	m.Equal = func(a, b interface{}) bool { return a.(c31SplitState) == b.(c31SplitState) }
+	m.Step = func(state, input, output interface{}) (bool, interface{}) {
+		s := state.(c31SplitState)
+		in := input.(c31In)
+		out := output.(c31Out)
+		if in.Op == "seed" {
+			return s == c31SplitUninit, c31SplitState{in.V, -1}
+		}
+		if s == c31SplitUninit {
+			return false, s
+		}
+		switch in.Op {
+		case "prepare":
+			if !out.OK {
+				return true, s
+			}
+			return true, c31SplitState{s.A, in.V}
+		case "commit":
+			if !out.OK {
+				return true, s
+			}
+			if s.P < 0 {
+				return false, s
+			}
+			return true, c31SplitState{s.P, s.P}
+		case "del":
+			if !out.OK {
+				return true, s
+			}
+			return true, c31SplitState{-1, s.P}
+		case "getns":
+			return out.V == s.A, s
+		case "checkuser":
+			return out.OK == (s.A >= 0), s
+		case "nsbyuser":
+			return out.OK == (s.A == in.V && s.A >= 0), s
+		}
+		return false, s
+	}
+	return m
+}
+
+// c31Storm runs one history in which administrators issue prepare / commit / delete as
+// separate calls from their own goroutines with no harness lock between them (several
+// control planes, or retries racing each other), plus readers.
+func c31Storm(st *StatisticManager, r *kit.Rand, nAdmins, opsPerAdmin, nReaders, readsPerReader int) ([]c31HistOp, c31ConcStats) {
+	names := []string{"A", "B", "C"}
+	m := mgNewManager(st, []*models.Namespace{c31Config("A", 0), c31Config("B", 0)})
+	defer mgDropManager(m)
+	base := time.Now()
+	now := func() int64 { return int64(time.Since(base)) + 1 }
+	var hist []c31HistOp
+	for _, n := range names {
+		v := -1
+		if n != "C" {
+			v = 0
+		}
+		hist = append(hist, c31HistOp{Client: 0, In: c31In{"seed", n, v}, Out: c31Out{OK: true}})
+	}
+	var version int64
+	var latest [3]int64
+	var wg sync.WaitGroup
+	var stats c31ConcStats
+	var panicMu sync.Mutex
+	results := make([][]c31HistOp, nAdmins+nReaders)
+	start := make(chan struct{})
+	for a := 0; a < nAdmins; a++ {
+		ar := kit.NewRand(r.Uint64())
+		wg.Add(1)
+		go func(id int, ar *kit.Rand) {
+			defer wg.Done()
+			<-start
+			pending := -1 // namespace this administrator prepared last
+			for u := 0; u < opsPerAdmin; u++ {
+				ni := ar.Intn(3)
+				kind := []string{"prepare", "prepare", "commit", "del"}[ar.Intn(4)]
+				if pending >= 0 && ar.Chance(3, 4) {
+					ni, kind = pending, "commit"
+				}
+				n := names[ni]
+				op := c31HistOp{Client: id}
+				func() {
+					defer func() {
+						if p := recover(); p != nil {
+							op.Out = c31Out{Err: "panic: " + fmt.Sprint(p)}
+							panicMu.Lock()
+							stats.panics = append(stats.panics, fmt.Sprintf("%+v: %v", op.In, p))
+							panicMu.Unlock()
+						}
+					}()
+					var err error
+					switch kind {
+					case "prepare":
+						v := int(atomic.AddInt64(&version, 1))
+						op.In = c31In{"prepare", n, v}
+						cfg := c31Config(n, v)
+						op.Call = now()
+						err = m.ReloadNamespacePrepare(cfg)
+						op.Ret = now()
+						atomic.StoreInt64(&latest[ni], int64(v))
+						pending = ni
+					case "commit":
+						op.In = c31In{"commit", n, 0}
+						op.Call = now()
+						err = m.ReloadNamespaceCommit(n)
+						op.Ret = now()
+						pending = -1
+					default:
+						op.In = c31In{"del", n, 0}
+						op.Call = now()
+						err = m.DeleteNamespace(n)
+						op.Ret = now()
+					}
+					op.Out = c31Out{OK: err == nil}
+					if err != nil {
+						op.Out.Err = err.Error()
+					}
+				}()
+				if op.Ret == 0 {
+					op.Ret = now()
+				}
+				results[id] = append(results[id], op)
+			}
+		}(a, ar)
+	}
+	for q := 0; q < nReaders; q++ {
+		rr := kit.NewRand(r.Uint64())
+		wg.Add(1)
+		go func(id int, rr *kit.Rand) {
+			defer wg.Done()
+			<-start
+			for i := 0; i < readsPerReader; i++ {
+				ni := rr.Intn(3)
+				n := names[ni]
+				op := c31HistOp{Client: id}
+				switch rr.Intn(3) {
+				case 0:
+					op.In = c31In{"getns", n, 0}
+					op.Call = now()
+					ns := m.GetNamespace(n)
+					v := -1
+					if ns != nil {
+						v = ns.GetMaxExecuteTime() - mgVersionBase
+					}
+					op.Ret = now()
+					op.Out = c31Out{V: v}
+				case 1:
+					op.In = c31In{"checkuser", n, 0}
+					op.Call = now()
+					ok := m.CheckUser(c31User(n))
+					op.Ret = now()
+					op.Out = c31Out{OK: ok}
+				default:
+					v := int(atomic.LoadInt64(&latest[ni])) - rr.Intn(3)
+					if v < 0 {
+						v = 0
+					}
+					op.In = c31In{"nsbyuser", n, v}
+					op.Call = now()
+					got := m.GetNamespaceByUser(c31User(n), c31Password(v))
+					op.Ret = now()
+					op.Out = c31Out{OK: got == n}
+				}
+				results[id] = append(results[id], op)
+			}
+		}(nAdmins+q, rr)
+	}
+	close(start)
+	wg.Wait()
+	// final reads, after everything returned: what the history left behind must be explained too
+	for ni, n := range names {
+		op := c31HistOp{Client: nAdmins + nReaders, In: c31In{"getns", n, 0}}
+		op.Call = now()
+		v := -1
+		if ns := m.GetNamespace(n); ns != nil {
+			v = ns.GetMaxExecuteTime() - mgVersionBase
+		}
+		op.Ret = now()
+		op.Out = c31Out{V: v}
+		hist = append(hist, op)
+		_ = ni
+	}
+	var admin []c31HistOp
+	for id, rs := range results {
+		hist = append(hist, rs...)
+		if id < nAdmins {
+			admin = append(admin, rs...)
+		}
+	}
+	stats.ops = len(hist)
+	stats.units = len(admin)
+	// overlapping = pairs of administrator operations of different goroutines that overlap in time
+	for i := range admin {
+		for j := i + 1; j < len(admin); j++ {
+			if admin[i].Client != admin[j].Client && admin[i].Call <= admin[j].Ret && admin[j].Call <= admin[i].Ret {
+				stats.overlapping++
+			}
+		}
+	}
+	return hist, stats
+}
+
 func TestVerif_C31(t *testing.T) {
-	rec := kit.Start("C31", "exploration", "sequential: every history of exactly L operations over {prepare, commit, delete} x namespaces on a fresh real Manager (2 namespaces, one configured at start; 3 namespaces, two configured at start), extensions of a failing prefix skipped, checked after every step; non-trivial = distinct histories with an operation between a prepare and a later commit. concurrent: histories of 2 administrators (atomic prepare+commit / delete units, serialised) and 8 readers, checked with porcupine per namespace under the race detector")
+	rec := kit.Start("C31", "exploration", "sequential: every history of exactly L operations over {prepare, prepare of a configuration NewNamespace refuses, commit, delete} x namespaces on a fresh real Manager (2 namespaces, one configured at start; 3 namespaces, two configured at start), extensions of a failing prefix skipped, checked after every step; non-trivial = distinct histories with an operation between a prepare and a later commit. concurrent: (a) histories of 2 administrators (atomic prepare+commit / delete units, serialised) and 8 readers, (b) histories of 4 administrators issuing prepare / commit / delete as separate unserialised calls and 4 readers; both checked with porcupine per namespace under the race detector")
 	defer rec.Finish(t)
 	if err := mgInit(); err != nil {
 		t.Fatal(err)
 	}
 	defer mgCleanup()
-	rec.Assume("specification: prepare(n,v) records v as the configuration last prepared for n; commit(n) may be refused (then nothing changes); a commit(n) that succeeds requires a configuration prepared for n and makes exactly it active; delete(n) removes n; nothing else changes; sessions see namespaces and users of the same generation")
-	rec.Assume("concurrent administrators are serialised as atomic prepare+commit / delete units (what one control plane issues); arbitrary interleavings of single operations are explored sequentially only")
+	rec.Assume("specification: prepare(n,v) records v as the configuration last prepared for n when it succeeds and changes nothing when it fails; commit(n) may be refused (then nothing changes); a commit(n) that succeeds requires a configuration prepared for n and makes exactly it active; delete(n) removes n; nothing else changes; sessions see namespaces and users of the same generation")
+	rec.Assume("concurrent part (a): administrators serialised as atomic prepare+commit / delete units (what one control plane issues); part (b): administrators call prepare, commit and delete from their own goroutines with nothing between them, and the specification treats each call as atomic (a refused commit is always legal)")
 	rec.Assume("timestamps of concurrent histories come from the process's monotonic clock read without synchronisation (an atomic counter would order reader and administrator goroutines for the race detector); they are used only as the real-time order of the linearizability check")
 	rec.Assume("namespaces have no backend addresses; one StatisticManager per worker shares the process-wide gauges")
 
@@ -607,7 +830,11 @@ func TestVerif_C31(t *testing.T) {
 			}
 		} else {
 			rec.Eval(1)
-			res, _ := porcupine.CheckOperationsVerbose(c31Model(), c31ToPorcupine(w.Conc), 60*time.Second)
+			model := c31Model()
+			if w.Kind == "storm" {
+				model = c31SplitModel()
+			}
+			res, _ := porcupine.CheckOperationsVerbose(model, c31ToPorcupine(w.Conc), 60*time.Second)
 			fmt.Printf("replay: porcupine says %v\n", res)
 			if res == porcupine.Illegal {
 				rec.Violation("concurrent|not-linearizable", "recorded concurrent history is not linearizable", w)
@@ -620,25 +847,41 @@ func TestVerif_C31(t *testing.T) {
 	t0 := time.Now() // reporting only
 	type job struct {
 		names, active []string
+		kinds         []string
 		maxLen        int
 		prefix        []c31Op
 	}
+	type space struct {
+		names, active []string
+		kinds         []string
+		quick, full   int // length enumerated by quick (0 = not enumerated) and by thorough
+	}
+	pcd, pfcd := []string{"P", "C", "D"}, []string{"P", "F", "C", "D"}
+	two, three := []string{"A", "B"}, []string{"A", "B", "C"}
+	// thorough enumerates every space up to `full`; quick enumerates less and samples the rest
+	// of that same space (so that every failing history of quick is one thorough has shrunk).
+	// F is a prepare of a configuration that NewNamespace refuses.
+	spaces := []space{
+		{two, []string{"A"}, pcd, 4, 6},
+		{three, []string{"A", "B"}, pcd, 0, 5},
+		{two, []string{"A"}, pfcd, 3, 5},
+		{three, []string{"A", "B"}, pfcd, 3, 4},
+	}
 	var jobs []job
-	add := func(names, active []string, maxLen int) {
-		for _, k := range []string{"P", "C", "D"} {
-			for _, n := range names {
-				jobs = append(jobs, job{names, active, maxLen, []c31Op{{k, n}}})
+	bounds := []string{}
+	for _, sp := range spaces {
+		l := kit.N(sp.quick, sp.full)
+		bounds = append(bounds, fmt.Sprintf("%d namespaces, ops %s: enumerated to %d, thorough %d", len(sp.names), strings.Join(sp.kinds, ""), l, sp.full))
+		if l == 0 {
+			continue
+		}
+		for _, k := range sp.kinds {
+			for _, n := range sp.names {
+				jobs = append(jobs, job{sp.names, sp.active, sp.kinds, l, []c31Op{{k, n}}})
 			}
 		}
 	}
-	// thorough enumerates 2 namespaces up to 6 and 3 namespaces up to 5 operations; quick
-	// enumerates less and samples the rest of that same space (so that every failing history
-	// of quick is one thorough has shrunk and listed)
-	const full2, full3 = 6, 5
-	l2, l3 := kit.N(4, full2), kit.N(3, full3)
-	add([]string{"A", "B"}, []string{"A"}, l2)
-	add([]string{"A", "B", "C"}, []string{"A", "B"}, l3)
-	rec.Set("sequential_bounds", map[string]int{"two_namespaces_len": l2, "three_namespaces_len": l3, "sampled_up_to_two": full2, "sampled_up_to_three": full3})
+	rec.Set("sequential_bounds", bounds)
 	jobCh := make(chan job, len(jobs))
 	for _, j := range jobs {
 		jobCh <- j
@@ -653,7 +896,7 @@ func TestVerif_C31(t *testing.T) {
 			defer wg.Done()
 			s := &c31Seq{st: mgStatsFor(), rec: rec, cache: map[string]*c31Fail{}}
 			for j := range jobCh {
-				s.exhaust(j.names, j.active, j.maxLen, j.prefix)
+				s.exhaust(j.names, j.active, j.kinds, j.maxLen, j.prefix)
 			}
 			atomic.AddInt64(&totalRuns, s.runs)
 		}()
@@ -669,14 +912,15 @@ func TestVerif_C31(t *testing.T) {
 		s := &c31Seq{st: mgStatsFor(), rec: rec, cache: map[string]*c31Fail{}}
 		r := kit.SubRand(kit.Seed(), "C31/sampled")
 		for i := 0; i < 400; i++ {
-			c := c31Case{Names: []string{"A", "B"}, Active: []string{"A"}}
-			n := r.Range(l2+1, full2)
-			if i%2 == 1 {
-				c = c31Case{Names: []string{"A", "B", "C"}, Active: []string{"A", "B"}}
-				n = r.Range(l3+1, full3)
+			sp := spaces[i%len(spaces)]
+			c := c31Case{Names: sp.names, Active: sp.active}
+			lo := sp.quick + 1
+			if lo > sp.full {
+				lo = sp.full
 			}
+			n := r.Range(lo, sp.full)
 			for j := 0; j < n; j++ {
-				c.Ops = append(c.Ops, c31Op{[]string{"P", "C", "D"}[r.Intn(3)], c.Names[r.Intn(len(c.Names))]})
+				c.Ops = append(c.Ops, c31Op{sp.kinds[r.Intn(len(sp.kinds))], c.Names[r.Intn(len(c.Names))]})
 			}
 			rec.Eval(1)
 			c31Nontrivial(rec, c)
@@ -723,6 +967,50 @@ func TestVerif_C31(t *testing.T) {
 			}
 			rec.Sample(map[string]interface{}{"kind": "conc", "first_operations": hist[:n]})
 		}
+	}
+	// ---- concurrent administrators: prepare / commit / delete as separate, unserialised calls
+	fmt.Printf("phase concurrent-units: %.1fs\n", time.Since(t0).Seconds())
+	rs := kit.SubRand(kit.Seed(), "C31/storm")
+	nStorm := kit.N(60, 800)
+	split := c31SplitModel()
+	var adminOverlaps, acceptedCommits int
+	for i := 0; i < nStorm; i++ {
+		mgThrottle(kit.N(60000, 120000), rec.Inconclusive)
+		hist, stats := c31Storm(mgStatsFor(), rs, 4, 16, 4, 20)
+		rec.Eval(1)
+		totalOps += stats.ops
+		adminOverlaps += stats.overlapping
+		for _, o := range hist {
+			if o.In.Op == "commit" && o.Out.OK {
+				acceptedCommits++
+			}
+		}
+		if stats.overlapping > 0 {
+			rec.Nontrivial(fmt.Sprintf("storm-%d-%d", i, stats.overlapping))
+		}
+		for _, p := range stats.panics {
+			rec.Violation("concurrent-admins|panic", "administrator operation panicked: "+p, map[string]interface{}{"kind": "storm", "concurrent": hist})
+		}
+		res, _ := porcupine.CheckOperationsVerbose(split, c31ToPorcupine(hist), 60*time.Second)
+		switch res {
+		case porcupine.Illegal:
+			rec.Violation("concurrent-admins|not-linearizable", fmt.Sprintf("history %d of unserialised administrators (%d operations) is not linearizable against the specification in which every prepare / commit / delete is atomic", i, len(hist)),
+				map[string]interface{}{"kind": "storm", "concurrent": hist})
+		case porcupine.Unknown:
+			rec.Inconclusive(fmt.Sprintf("porcupine did not finish concurrent-administrator history %d within 60 s", i))
+		}
+		if i == 0 {
+			n := len(hist)
+			if n > 10 {
+				n = 10
+			}
+			rec.Sample(map[string]interface{}{"kind": "storm", "first_operations": hist[:n]})
+		}
+	}
+	rec.Count("concurrent-admins.overlapping-operation-pairs", int64(adminOverlaps))
+	rec.Count("concurrent-admins.accepted-commits", int64(acceptedCommits))
+	if adminOverlaps == 0 || acceptedCommits == 0 {
+		rec.Inconclusive("administrator operations never overlapped or no commit was accepted: the concurrent-administrator part observed nothing")
 	}
 	fmt.Printf("phase all: %.1fs\n", time.Since(t0).Seconds())
 	rec.Count("concurrent.operations", int64(totalOps))
